@@ -1,7 +1,32 @@
-(** C03 — With auto_sync, data is durable before it is visible and immutable afterwards. (interim) *)
+(** C03 — With auto_sync, data is durable before it is visible and immutable afterwards.
+
+    Kernel-checked here: the "immutable afterwards" half, for every pool and
+    schedule (the interleaving theorem of C01 restated for a visible entry), and
+    the write discipline it rests on.  The ordering half (successful flush after
+    the last write and before the publishing rename/link) is decided today by the
+    per-inode monitor on the implementation's traces (vlib/c03.py) and the trace
+    equality with the model; its theorem is stated in DESIGN.md as not done. *)
 From Coq Require Import List NArith ZArith String Bool.
-From Kismet Require Import FS.Fs FS.Prog Ops.Ops Spec.ClassMon.
+From Kismet Require Import FS.Fs FS.Prog Ops.Ops Spec.ClassMon Spec.Calm Conc.Pool Conc.Effect Conc.Immut Proofs.WriteDisc.
 Import ListNotations.
-(** finalize_tempfile never returns Ok after a failed flush or chmod. *)
-Definition no_data_write (c : call) : bool :=
-  match c with CWrite _ _ | CCopy _ _ | CCreateTrunc _ _ => false | _ => true end.
+
+(** Once visible (no read-write descriptor left on it), an entry is never
+    written, truncated or replaced in place by anybody, under any schedule. *)
+Theorem C03_immutable_once_visible :
+  forall A (ps : list (prog A * oracle)) f0 sched1 sched2 i D,
+  fds_wf f0 -> Forall (fun po => disciplined (fst po)) ps ->
+  let st1 := run_sched sched1 (spawn_all ps ([], f0)) in
+  data (snd st1) i = Some D -> i < next_ino (snd st1) -> NoRW i (snd st1) ->
+  data (snd (run_sched sched2 st1)) i = Some D.
+Proof. exact @immutable_from_any_reachable_state. Qed.
+
+(** The publishing paths never write file contents themselves: set, put and
+    the temp-file variants issue no write, copy, truncating or exclusive create
+    and open nothing read-write, whatever the environment answers. *)
+Theorem C03_publishing_paths_do_not_write : forall cfg k v,
+  allc calm (cache_set cfg k v) anyc /\ allc calm (cache_put cfg k v) anyc.
+Proof. intros. split; [apply cm_cache_set|apply cm_cache_put]. Qed.
+
+(** finalize_tempfile closes the value's read-write descriptor on every path. *)
+Theorem C03_finalize_is_calm : forall fd p sync, allc calm (finalize_tempfile fd p sync) anyc.
+Proof. intros. apply cm_finalize. Qed.
